@@ -134,6 +134,18 @@ def hyp_case(draw, big):
     case = {"seq": seq, "w": w, "kind": kind}
     if kind == "comp-user":
         groups = draw(st.lists(st.lists(st.sampled_from(list(ref.AA + "acdefghiklmnpqrstvwy")), min_size=1, max_size=6).map("".join), min_size=1, max_size=5))
+        r1 = draw(st.integers(0, 7))
+        if r1 == 0:
+            # two overlapping groups followed by their union (the default grouping has the shape acidic, basic, charged)
+            a = draw(st.lists(st.sampled_from(list(ref.AA)), min_size=1, max_size=4, unique=True))
+            b = draw(st.lists(st.sampled_from(list(ref.AA)), min_size=1, max_size=4, unique=True))
+            if draw(st.booleans()):
+                b = b + [a[0]]
+            union = a + [x for x in b if x not in a]
+            groups = draw(st.lists(st.sampled_from(["P", "GS", "W"]), max_size=1)) + ["".join(a), "".join(dict.fromkeys(b)), "".join(union)]
+        elif r1 == 1:
+            # groups given as strings that happen to spell three-letter residue names
+            groups = draw(st.lists(st.sampled_from(gens.THREE_LETTER_NAMES + [n.lower() for n in gens.THREE_LETTER_NAMES] + [n.capitalize() for n in gens.THREE_LETTER_NAMES]), min_size=1, max_size=3))
         if draw(st.integers(0, 3)) == 0:
             # a repeated group (same residues, possibly other case/order) still gets its own row
             g = draw(st.sampled_from(groups))
